@@ -12,7 +12,7 @@ import ast
 
 from ..engine import rule
 from ..model import Undecided
-from ..cfg import dotted, call_name, is_call, simple_name, unparse, const_value, contains, enclosing
+from ..cfg import same, dotted, call_name, is_call, simple_name, unparse, const_value, contains, enclosing
 from ..flow import Canon, expand, Defs, depends
 from ..decide import table, ret_kind
 from ..util import keyword, returns_of, calls_in, inside, order_key
@@ -76,7 +76,7 @@ def c20a(ctx):
                       'cache_headers(<o>.timestamp, etag_data=(<o>.timestamp, <o>.size)) with one object <o>', fn, x,
                       fail='the validators are not (timestamp, size) of one and the same served object: %s' % unparse(x)[:90])
             ma = keyword(x, 'max_age', 2)
-            ctx.check(ma is not None and unparse(ma) == 'self.max_tile_age', '%s:max-age-configured' % fn.short, 'max_age is the configured tile age', fn, x)
+            ctx.check(ma is not None and same(ma, 'self.max_tile_age'), '%s:max-age-configured' % fn.short, 'max_age is the configured tile age', fn, x)
         if not valid:
             ctx.bad('%s:validators-from-one-object' % fn.short, 'no cache_headers(..., etag_data=...) call', fn)
         # (iii) make_conditional after validators
@@ -197,13 +197,13 @@ def c20c(ctx):
     if ok:
         # digest source iterates over all of etag_data
         src = [Canon(fn).expr(et[0].value)]          # closed form of the digest expression
-        ok = all(contains(v, lambda x: isinstance(x, (ast.GeneratorExp, ast.ListComp)) and unparse(x.generators[0].iter) == 'etag_data' and not x.generators[0].ifs)
-                 or contains(v, lambda x: is_call(x, 'map') and len(x.args) == 2 and unparse(x.args[1]) == 'etag_data') for v in src)
+        ok = all(contains(v, lambda x: isinstance(x, (ast.GeneratorExp, ast.ListComp)) and same(x.generators[0].iter, 'etag_data') and not x.generators[0].ifs)
+                 or contains(v, lambda x: is_call(x, 'map') and len(x.args) == 2 and same(x.args[1], 'etag_data')) for v in src)
     ctx.check(ok, 'Response.cache_headers:etag-over-all-data', 'the ETag is a digest over every element of etag_data', fn,
               fail='the ETag does not cover all elements of etag_data (e.g. size only): a rewritten tile keeps its validator')
     sets = g.find_stmts(lambda s: isinstance(s, ast.Assign) and isinstance(s.targets[0], ast.Subscript) and
                         const_value(s.targets[0].slice) == 'Cache-Control' and isinstance(s.value, ast.Constant) and 'no-store' in str(s.value.value))
-    ok = bool(sets) and all(g.guarded(n, lambda at: at.op is None and unparse(at.expr) == 'no_cache', True) for n in sets)
+    ok = bool(sets) and all(g.guarded(n, lambda at: at.op is None and same(at.expr, 'no_cache'), True) for n in sets)
     ctx.check(ok, 'Response.cache_headers:no-store', 'no_cache sets Cache-Control: no-cache, no-store', fn,
               fail='the no_cache branch does not set a no-store directive')
     asserts = [s for s in fn.walk() if isinstance(s, ast.Assert)]
@@ -217,7 +217,7 @@ def c20c(ctx):
     lm = ctx.fn('mapproxy/response.py:Response._last_modified_set')
     g2 = lm.cfg
     hs = g2.find_stmts(lambda s: isinstance(s, ast.Assign) and isinstance(s.targets[0], ast.Subscript) and const_value(s.targets[0].slice) == 'Last-modified')
-    ok = bool(hs) and all(g2.guarded(n, lambda at: at.op is None and unparse(at.expr) == 'date', True) for n in hs)
+    ok = bool(hs) and all(g2.guarded(n, lambda at: at.op is None and same(at.expr, 'date'), True) for n in hs)
     ctx.check(ok, 'Response._last_modified_set:truthy-only', 'Last-modified is only set from a truthy timestamp', lm)
 
 
@@ -229,7 +229,7 @@ def c20d(ctx):
     ok = len(sz) == 1 and is_call(sz[0].value, 'tell')
     ctx.check(ok, 'tile_buffer:size', 'tile.size is the number of bytes handed to the store', tb)
     ts = g.find_stmts(lambda s: isinstance(s, ast.Assign) and unparse(s.targets[0]) == 'tile.timestamp')
-    ok = bool(ts) and all(g.guarded(n, lambda at: at.op is None and unparse(at.expr) == 'tile.timestamp', False) and is_call(g.stmt[n].value, 'time.time') for n in ts)
+    ok = bool(ts) and all(g.guarded(n, lambda at: at.op is None and same(at.expr, 'tile.timestamp'), False) and is_call(g.stmt[n].value, 'time.time') for n in ts)
     ctx.check(ok, 'tile_buffer:timestamp-if-unset', 'tile.timestamp is set to now only if it was not set', tb)
     st = [s for s in tb.walk() if isinstance(s, ast.Assign) and unparse(s.targets[0]) == 'tile.stored' and const_value(s.value) is True]
     ctx.check(bool(st), 'tile_buffer:stored', 'the tile is marked stored', tb)
@@ -286,7 +286,7 @@ def c20f(ctx):
                   fail='an uncacheable result (an error image produced by on_error handling) is written to the cache, or cacheable ones are not')
     fn = ctx.fn(T + ':TileCreator._create_single_tile')
     sets = [s for s in fn.walk() if isinstance(s, ast.Assign) and unparse(s.targets[0]) == 'tile.cacheable']
-    ok = bool(sets) and all(unparse(s.value) == 'source.cacheable' for s in sets)
+    ok = bool(sets) and all(same(s.value, 'source.cacheable') for s in sets)
     ctx.check(ok, 'TileCreator._create_single_tile:flag-propagated', 'the tile carries the cacheable flag of the fetched image (it reaches the response headers)', fn,
               fail='the cacheable flag of the fetched image is not copied to the tile: an error tile is served with public cache headers')
     sm = ctx.fn(T + ':split_meta_tiles')
@@ -364,10 +364,10 @@ def c20h(ctx):
     ok = bool(res) and all(unparse(keyword(x, 'cacheable')) == 'cacheable' for x in res)
     falses = g.find_stmts(lambda s: isinstance(s, ast.Assign) and unparse(s.targets[0]) == 'cacheable' and const_value(s.value, 1) is False)
     form_loop = bool(falses) and all(g.guarded(n, lambda at: at.op is None and unparse(at.expr).endswith('.cacheable') and 'self' not in unparse(at.expr), False) and
-                                     enclosing(g.stmt[n], ast.For) is not None and unparse(enclosing(g.stmt[n], ast.For).iter) == 'self.layers' for n in falses)
+                                     enclosing(g.stmt[n], ast.For) is not None and same(enclosing(g.stmt[n], ast.For).iter, 'self.layers') for n in falses)
     vals = [v for v, sel in defs.of('cacheable') if sel is None]
     form_all = any(contains(v, lambda x: is_call(x, 'all')) for v in vals) and not any(contains(v, lambda x: is_call(x, 'any')) for v in vals)
-    start = any(unparse(v) == 'self.cacheable' or 'self.cacheable' in unparse(v) for v in vals)
+    start = any(same(v, 'self.cacheable') or 'self.cacheable' in unparse(v) for v in vals)
     ctx.check(ok and (form_loop or form_all) and start, 'LayerMerger.merge:cacheable-iff-all-layers',
               'the merged image is cacheable only if the merger is and every layer image is (one uncacheable layer makes the result uncacheable)', mg,
               fail='a merged image containing an uncacheable (error fill) layer is reported cacheable: it is stored and sent with public cache headers')
